@@ -16,7 +16,9 @@ RULE = ("cases = operation histories (insert/overwrite/operator[]/find/has/get/r
         "(and size hints 0 / -1) so growth thresholds are crossed early, plus histories crossing 225 and 1793 entries, also while a second "
         "handle to the same table exists (`share` = HashMap::operator=); pairs of containers with equal "
         "contents built in different orders / table sizes / with insert+remove noise, then ==; `raw` ops print the bucket count and "
-        "the unsorted enumeration of hash containers on both sides; "
+        "the unsorted enumeration of hash containers on both sides; `cv` lines build a source map and run a converting constructor "
+        "(int -> String keys 9/10/100, negatives, random 32-bit; double q/4 -> int keys that merge; same-key-type Map and Dic), a few "
+        "malformed (odd token count, unknown variant); "
         "non-trivial = distinct case with at least one mutation and one observation")
 TRUSTED = ["tools/props/c02.py translate(): regex extraction of the hash-table constants (String hash multiplier, HashMap() size, "
            "rehash fill fraction / factor / slot limit, nextPoT shifts) and shape checks of hash(int), binOf, ASL_HMAP_SKIP from "
@@ -1012,7 +1014,13 @@ LEVEL_TEXT = ("Proved in Lean 4, for ALL inputs and histories, about the executa
               "a strict total order (compare<int> and strcmp-on-bytes are proved to be such); (2) every Map/Dic operation (set, operator[], "
               "m[k]=v, remove, clear, clone, add/merge also with itself, find/has/get) keeps the array strictly ascending and acts on the "
               "abstract map K->Option V as the finite-map operation, for every history (map_refines_finmap); keys()/enumeration strictly "
-              "ascending, each key once, length() = number of distinct keys; == iff equal abstract maps; (3) HashMap/HashDic for an "
+              "ascending, each key once, length() = number of distinct keys; == iff equal abstract maps; the converting constructors "
+              "Map<K,T>(const Map<K2,T2>&), Dic<T>(const Map<K2,T2>&), Dic<T>(const Dic<T2>&) (Map.convert / Map.convertDic) give, for ANY key "
+              "and value conversion (order-reversing, key-merging) and any source, a strictly ascending array that meets the binary-search "
+              "spec, equals the fold of FinMap.set over the converted records, finds every converted source key and is == to every "
+              "well-formed map of the same contents (map_convert_refines, dic_convert_refines, map_convert_eq_same_contents; K op `cv`: "
+              "int -> decimal String keys, double k/4 -> int keys, same-key-type conversions; raw layout, has/get of every source key, "
+              "== against the map built by insertion, remove); (3) HashMap/HashDic for an "
               "ARBITRARY hash function and any positive table size: the invariant (every key in bucket binOf(key), chains duplicate-free, "
               "count = number of entries) is preserved by operator[], set, remove (repaired d4d2172), clear, rehash and dup/clone, and holds "
               "for the table of every constructor argument incl. 0 and negative size hints (repaired 16300ca, hashmap_ofSize); the "
